@@ -712,6 +712,30 @@ def invalid_ctor_program(rng, i, cat, gg):
     return prog, 'invalid:' + what
 
 
+FOLDED_KEY = 'C02/operand-folded-to-python-number'
+
+
+def folding_explains(prog, gg, scgf):
+    """Attribution probe (keys only): the program is of the lifted class and,
+    once the library does not hand Python numbers back to the graph function
+    (x*0 -> 0.0, x.madd(0, c) -> c switched off inside this worker), it builds,
+    is written, parses strictly and passes the structure and ordering
+    predicates.  Only then is a failure of the same program on the real
+    library attributed to the folded operand."""
+    if not (prog.get('folding_agnostic') and prog.get('foldable_nodes')):
+        return False
+    from vf.props.C01 import no_folding
+    from vf.common import Acc
+    try:
+        with no_folding():
+            d = scgf.parse(bytes(gg.build(prog).as_bytes()))
+        scratch = Acc('C02', 'probe', 0, 'quick')
+        return not (structure(d, prog, gg, scratch)
+                    or order(d, prog, gg, scratch))
+    except Exception:
+        return False
+
+
 def run_shard(spec, acc):
     from vf import gen_graph as gg, scgf
     from sc3.synth.synthdesc import SynthDesc
@@ -770,17 +794,9 @@ def run_shard(spec, acc):
                     site = 'graph-function'
                 key = f'C02/valid-program-rejected/{type(e).__name__}/{site}'
                 manifestation = key
-                if prog.get('folding_agnostic') and prog.get('foldable_nodes'):
-                    # attribution probe (keys only): does it build once the
-                    # library does not hand Python numbers back (x*0 -> 0.0)?
-                    from vf.props.C01 import no_folding
-                    try:
-                        with no_folding():
-                            scgf.parse(bytes(gg.build(prog).as_bytes()))
-                        key = 'C02/operand-folded-to-python-number'
-                        acc.count(f'folded_operand_{type(e).__name__}@{site}')
-                    except Exception:
-                        pass
+                if folding_explains(prog, gg, scgf):
+                    key = FOLDED_KEY
+                    acc.count(f'folded_operand_{type(e).__name__}@{site}')
                 acc.violation(
                     key,
                     {'case': i, 'kind': kind, 'manifestation': manifestation,
@@ -802,9 +818,16 @@ def run_shard(spec, acc):
             sites = tb_sites(e)
             site = ':'.join(sites[-1]) if sites else '?'
             root = e.__cause__ or e
+            key = f'C02/writer-raises/{type(root).__name__}/{site}'
+            manifestation = key
+            if folding_explains(prog, gg, scgf):
+                # e.g. (x*0 + 2.0) ** 1005 computed by Python: a constant
+                # that does not fit float32
+                key = FOLDED_KEY
+                acc.count(f'folded_operand_writer_{type(root).__name__}')
             acc.violation(
-                f'C02/writer-raises/{type(root).__name__}/{site}',
-                {'case': i, 'kind': kind,
+                key,
+                {'case': i, 'kind': kind, 'manifestation': manifestation,
                  'error': safe(lambda: repr(root)[:300]),
                  'script': gg.script(prog), 'tb': safe(short_tb, e, 6)})
             continue
@@ -922,6 +945,13 @@ def run_shard(spec, acc):
             or any(isinstance(p['default'], list) for p in prog['params'])
             or bool(prog.get('variants')))
         acc.case(sig, nontrivial=nontriv)
+        if problems and any(not k.startswith('C02/reader') for k, _ in problems) \
+                and folding_explains(prog, gg, scgf):
+            acc.count('folded_operand_' + problems[0][0].split('/')[1])
+            problems = [(FOLDED_KEY, f'{k}: {dt}') for k, dt in problems
+                        if not k.startswith('C02/reader')][:1] + \
+                       [(k, dt) for k, dt in problems
+                        if k.startswith('C02/reader')]
         seen = set()
         for key, detail in problems:
             if key in seen:
